@@ -333,6 +333,16 @@ impl Profile
                 p.max_systems = 5;
                 p.hot_entities = 2;
                 if prop == "C13" { p.max_top = 18; p.w_shape = [8, 5, 3, 1, 3]; }
+                if prop == "C09"
+                {
+                    // polled reactions are part of the statement: despawn / removal keys, revokes and despawns
+                    p.w_top[OPK_DESPAWN_ENT] = 8; p.w_top[OPK_REVOKE] = 5; p.w_top[OPK_REG_FRESH] = 8; p.w_top[OPK_REMOVE] = 5;
+                    p.w_script[OPK_DESPAWN_ENT] = 6; p.w_script[OPK_REVOKE] = 4; p.w_script[OPK_REMOVE] = 4;
+                    p.w_key = [6, 4, 5, 2, 4, 5, 2, 3, 4, 3, 10];
+                    p.w_fresh_api = [2, 2, 6, 3];
+                    p.hot_entities = 3;
+                    p.p_no_settle = 150;
+                }
                 if prop == "C03" { p.w_script[OPK_REMOVE] = 6; p.w_script[OPK_DESPAWN_ENT] = 4; p.w_key = [6, 6, 6, 4, 5, 7, 3, 5, 5, 3, 5]; }
             }
             "C04" =>
